@@ -929,6 +929,8 @@ class Message:
             encrypted_payloads=[],
             crypto=crypto
         )
+        # whether the payloads come from an encrypted payload whose checksum was verified
+        message.is_protected = False
 
         if not header_only:
             # parse unencrypted payloads
@@ -947,6 +949,7 @@ class Message:
                 # parse decrypted payloads and remove Payload SK
                 message.iv, decrypted_data = payload_sk.decrypt(crypto)
                 message.encrypted_payloads = cls._parse_payloads(decrypted_data, payload_sk.next_payload_type)
+                message.is_protected = True
 
         return message
 
